@@ -1,0 +1,58 @@
+//go:build verif
+
+package npm
+
+import (
+	"sort"
+	"sync"
+
+	"deps.dev/util/resolve"
+)
+
+// This file is only built with the verif tag: it hands the final install tree
+// of a resolution to a registered observer (used by verification monitors).
+
+// VerifNode is a snapshot of a node of the install tree built by Resolve.
+type VerifNode struct {
+	Name     string // name under which it sits in its parent's node_modules
+	IsAlias  bool
+	Package  resolve.PackageKey
+	Version  resolve.VersionKey
+	ID       resolve.NodeID
+	Bundled  bool
+	Children []*VerifNode
+}
+
+var (
+	verifMu   sync.Mutex
+	verifHook func(g *resolve.Graph, root *VerifNode)
+)
+
+// SetVerifTreeHook registers f to receive the final install tree of every resolution.
+func SetVerifTreeHook(f func(g *resolve.Graph, root *VerifNode)) {
+	verifMu.Lock()
+	verifHook = f
+	verifMu.Unlock()
+}
+
+func verifTree(g *resolve.Graph, root *treeNode) {
+	verifMu.Lock()
+	f := verifHook
+	verifMu.Unlock()
+	if f == nil {
+		return
+	}
+	var snap func(n *treeNode, name string, alias bool) *VerifNode
+	snap = func(n *treeNode, name string, alias bool) *VerifNode {
+		v := &VerifNode{Name: name, IsAlias: alias, Package: n.pkg, Version: n.ver.VersionKey, ID: n.id, Bundled: n.bundled != nil}
+		for pk, c := range n.children {
+			v.Children = append(v.Children, snap(c, pk.Name, false))
+		}
+		for a, c := range n.alias {
+			v.Children = append(v.Children, snap(c, a, true))
+		}
+		sort.Slice(v.Children, func(i, j int) bool { return v.Children[i].Name < v.Children[j].Name })
+		return v
+	}
+	f(g, snap(root, root.pkg.Name, false))
+}
